@@ -53,7 +53,8 @@ func runCase(c Case) ([]fail, string) {
 }
 
 func main() {
-	gvByName("") // build the registry before any goroutine uses it
+	gvByName("") // build the registries before any goroutine uses them
+	initOps()
 	if p := report.ReplayArg(); p != "" {
 		rp, err := report.LoadReplay(p)
 		if err != nil {
@@ -132,8 +133,8 @@ func main() {
 
 	// ---- part 1
 	capObjs := r.Pick(2, 3)
-	maxDepth := r.Pick(4, 5)
-	deadline := float64(r.Pick(75, 540))
+	maxDepth := r.Pick(5, 6)
+	deadline := float64(r.Pick(240, 560)) // safety net only; the bounds are chosen to finish well before
 	st := explore(r, maxDepth, capObjs, r.Thorough(), deadline)
 
 	r.Set("history_depth_reached", st.depth)
